@@ -291,12 +291,16 @@ func checkC12(ctx *Ctx, in c12Input, out *parseOutcome) {
 		}
 	}
 	if !out.MainDone {
-		ctx.Violate("C12", "hang", in.Class, fmt.Sprintf("ParseSource neither returned nor panicked for %s: %s", q, out.Res.String()))
+		what := "hang"
+		if out.Res.End == "stepcap" {
+			what = "no-quiescence"
+		}
+		ctx.Violate("C12", what, strings.SplitN(in.Class, "+", 2)[0], fmt.Sprintf("ParseSource neither returned nor panicked for %s (%d bytes): %s", q, len(src), out.Res.String()))
 		return
 	}
 	if out.Returned {
 		ctx.Probe("outcome_value")
-		if _, err := toNode(out.Value, 0); err != nil && in.Class != "deep-nesting" {
+		if _, err := toNode(out.Value, 0); err != nil {
 			ctx.Violate("C12", "returned-non-collection", "value", fmt.Sprintf("ParseSource(%s) returned something that is not a collection: %v", q, err))
 		}
 	} else {
